@@ -403,6 +403,12 @@ class HostNode(Node, discriminator="host-node"):
         """
         super().receive_frame(frame, from_network_interface)
 
+        # A host is not a router: a unicast frame that reached this host's NIC by MAC address (e.g. because another host
+        # uses it as its gateway) but is addressed to an IP address this host does not own is not for its software.
+        if frame.ip and not frame.is_broadcast and not self.ip_is_network_interface(frame.ip.dst_ip_address):
+            self.sys_log.info(f"Ignoring frame addressed to {frame.ip.dst_ip_address}, which is not an address of this host")
+            return
+
         # Check if the destination port is open on the Node
         dst_port = None
         if frame.tcp:
